@@ -292,7 +292,7 @@ class RoundTrip(Contract):
     prop = "C01"
     unroll = {"commonroad.common.util.make_valid_orientation": 3, "commonroad.common.util.make_valid_orientation_interval": 3}
     summaries = ("float_to_str", "make_valid_orientation")
-    budget_s = 600
+    budget_s = 1800
 
 
 CONTENTS = {"lanelet network": ("network",), "static obstacle": ("static",), "dynamic obstacle with trajectory": ("dynamic",),
